@@ -202,13 +202,6 @@ Proof.
 Qed.
 
 (** Stock samplers (no custom sampler anywhere) hand back the parent's tracestate. *)
-Fixpoint stock (s : sampler) : bool :=
-  match s with
-  | SAlways | SNever | SRatio _ => true
-  | SParent a b c d e => stock a && stock b && stock c && stock d && stock e
-  | SCustom _ _ => false
-  end.
-
 Lemma stock_tracestate s psc t : stock s = true -> rts (should_sample s psc t) = tstate psc.
 Proof.
   induction s as [| | bits | root IH0 rs IH1 rns IH2 ls IH3 lns IH4 | d ts]; cbn [stock]; intro H;
@@ -418,3 +411,170 @@ Proof.
   repeat split. intros n a H.
   destruct n as [|p]; [lia|]. do 3 (destruct p as [p|p|]; try lia; try reflexivity).
 Qed.
+
+(** ** the stock ID generator over an arbitrary stream of source words *)
+Section StockGen.
+  Variable w : nat -> N.
+
+  Lemma read_bytes_length n : forall st, length (fst (read_bytes w n st)) = n.
+  Proof.
+    induction n as [|n IH]; intro st; cbn [read_bytes]; [reflexivity|].
+    destruct (read_byte w st) as [b st1]. specialize (IH st1).
+    destruct (read_bytes w n st1) as [r st2]. cbn in *. now rewrite IH.
+  Qed.
+
+  (** byte accounting: after [total] bytes have been handed out, 7 * (words taken) = total + (bytes left) *)
+  Definition acct (st : rstate) (total : nat) : Prop :=
+    (7 * rk st = total + rpos st)%nat /\ (rpos st <= 6)%nat.
+
+  Lemma acct_init : acct rinit 0.
+  Proof. unfold acct, rinit; cbn; lia. Qed.
+
+  Lemma read_byte_acct st T : acct st T -> acct (snd (read_byte w st)) (S T).
+  Proof. unfold acct, read_byte. destruct (rpos st) eqn:E; cbn; lia. Qed.
+
+  Lemma read_bytes_acct n : forall st T, acct st T -> acct (snd (read_bytes w n st)) (T + n).
+  Proof.
+    induction n as [|n IH]; intros st T H; cbn [read_bytes].
+    - cbn. now rewrite Nat.add_0_r.
+    - pose proof (read_byte_acct st T H) as H1. destruct (read_byte w st) as [b st1]. cbn [snd] in H1.
+      specialize (IH st1 (S T) H1). destruct (read_bytes w n st1) as [r st2]. cbn [snd] in *.
+      now replace (T + S n)%nat with (S T + n)%nat by lia.
+  Qed.
+
+  (** the state after i draws of n bytes *)
+  Fixpoint after (n i : nat) (st : rstate) : rstate :=
+    match i with O => st | S i' => after n i' (snd (read_bytes w n st)) end.
+
+  Lemma after_acct n i : forall st T, acct st T -> acct (after n i st) (T + n * i).
+  Proof.
+    induction i as [|i IH]; intros st T H; cbn [after].
+    - now rewrite Nat.mul_0_r, Nat.add_0_r.
+    - apply (read_bytes_acct n) in H. apply IH in H.
+      now replace (T + n * S i)%nat with (T + n + n * i)%nat by lia.
+  Qed.
+
+  (** The retry loop returns the first non-zero draw, and only that. *)
+  Lemma draw_spec n fuel : forall st b st',
+    draw w n fuel st = Some (b, st') ->
+    exists j, (j < fuel)%nat /\
+      (forall i, (i < j)%nat -> all_zero (fst (read_bytes w n (after n i st))) = true) /\
+      read_bytes w n (after n j st) = (b, st') /\ all_zero b = false /\ length b = n.
+  Proof.
+    induction fuel as [|f IH]; intros st b st' H; cbn [draw] in H; [discriminate|].
+    destruct (read_bytes w n st) as [b0 st0] eqn:E. destruct (all_zero b0) eqn:Ez.
+    - apply IH in H as [j [Hj [Hz [Hr [Hb Hl]]]]]. exists (S j). split; [lia|]. split; [|split].
+      + intros [|i] Hi; cbn [after]; rewrite ?E; cbn [fst snd]; [exact Ez|]. apply Hz. lia.
+      + cbn [after]. rewrite E. exact Hr.
+      + auto.
+    - inversion H; subst. exists 0%nat. split; [lia|]. split; [intros i Hi; lia|]. split; [exact E|].
+      split; [exact Ez|]. pose proof (read_bytes_length n st) as Hl. now rewrite E in Hl.
+  Qed.
+
+  Lemma draw_complete n fuel : forall st j,
+    (j < fuel)%nat ->
+    (forall i, (i < j)%nat -> all_zero (fst (read_bytes w n (after n i st))) = true) ->
+    all_zero (fst (read_bytes w n (after n j st))) = false ->
+    draw w n fuel st = Some (read_bytes w n (after n j st)).
+  Proof.
+    induction fuel as [|f IH]; intros st j Hj Hz Hn; [lia|]. cbn [draw].
+    destruct (read_bytes w n st) as [b0 st0] eqn:E. destruct j as [|j].
+    - cbn [after] in Hn |- *. rewrite E in Hn |- *. cbn [fst] in Hn. now rewrite Hn.
+    - pose proof (Hz 0%nat ltac:(lia)) as H0. cbn [after] in H0. rewrite E in H0. cbn [fst] in H0. rewrite H0.
+      cbn [after] in Hn |- *. rewrite E in Hn |- *. cbn [snd] in *. apply IH; [lia| |exact Hn].
+      intros i Hi. specialize (Hz (S i) ltac:(lia)). cbn [after] in Hz. now rewrite E in Hz.
+  Qed.
+
+  (** words consumed: if T bytes had been handed out before, T + n * (j + 1) have been afterwards *)
+  Lemma draw_acct n fuel st b st' T :
+    acct st T -> draw w n fuel st = Some (b, st') ->
+    exists j, (j < fuel)%nat /\ acct st' (T + n * S j) /\ all_zero b = false /\ length b = n.
+  Proof.
+    intros Ha H. apply draw_spec in H as [j [Hj [_ [Hr [Hb Hl]]]]]. exists j. split; [exact Hj|].
+    split; [|auto]. pose proof (after_acct n j st T Ha) as H1. apply (read_bytes_acct n) in H1.
+    rewrite Hr in H1. cbn [snd] in H1. now replace (T + n * S j)%nat with (T + n * j + n)%nat by lia.
+  Qed.
+
+  Lemma stock_span_id_valid fuel st sd st' :
+    stock_span_id w fuel st = Some (sd, st') -> all_zero sd = false /\ length sd = 8%nat.
+  Proof. intro H. apply draw_spec in H as [j [_ [_ [_ H]]]]. exact H. Qed.
+
+  Lemma stock_ids_valid fuel st t sd st' :
+    stock_ids w fuel st = Some (t, sd, st') ->
+    all_zero t = false /\ length t = 16%nat /\ all_zero sd = false /\ length sd = 8%nat.
+  Proof.
+    unfold stock_ids. destruct (draw w 16 fuel st) as [[t0 st1]|] eqn:E1; [|discriminate].
+    destruct (draw w 8 fuel st1) as [[s0 st2]|] eqn:E2; [|discriminate].
+    intro H; inversion H; subst.
+    apply draw_spec in E1 as [_ [_ [_ [_ [H1 H2]]]]]. apply draw_spec in E2 as [_ [_ [_ [_ [H3 H4]]]]]. auto.
+  Qed.
+
+  (** *** programs on the stock generator: an instance of the oracle *)
+  Variable s : sampler.
+
+  Lemma new_span_self g parent (nr : bool) :
+    let sp := new_span s g parent nr in
+    new_span s (tid (sc sp), sid (sc sp)) parent nr = sp.
+  Proof.
+    unfold new_span. cbn [sc tid sid fst snd].
+    destruct (negb (tid_valid (tid (if nr then zero_sc else parent)))); reflexivity.
+  Qed.
+
+  Definition ids_of (res : list span) (k : nat) : bytes * bytes :=
+    match nth_error res k with Some sp => (tid (sc sp), sid (sc sp)) | None => ([], []) end.
+
+  Lemma run_stock_prefix fuel ops : forall spans st res st',
+    run_stock w fuel s ops spans st = Some (res, st') -> exists extra, res = spans ++ extra.
+  Proof.
+    induction ops as [|o r IH]; intros spans st res st' H; cbn [run_stock] in H.
+    - inversion H; subst. exists []. now rewrite app_nil_r.
+    - match type of H with match ?a with _ => _ end = _ => destruct a as [[g st1]|]; [|discriminate] end.
+      apply IH in H as [extra ->]. eexists. now rewrite <- app_assoc.
+  Qed.
+
+  (** the run equals the oracle run whose k-th answer is what the stock generator gave the k-th Start *)
+  Lemma run_stock_oracle fuel ops : forall spans st res st' gen,
+    run_stock w fuel s ops spans st = Some (res, st') ->
+    (forall k, (length spans <= k)%nat -> gen k = ids_of res k) ->
+    run_from gen s ops spans = res.
+  Proof.
+    induction ops as [|o r IH]; intros spans st res st' gen H Hg; cbn [run_stock] in H; cbn [run_from].
+    - now inversion H.
+    - match type of H with match ?a with _ => _ end = _ => destruct a as [[g st1]|]; [|discriminate] end.
+      pose proof (run_stock_prefix _ _ _ _ _ _ H) as [extra Hp].
+      set (sp := new_span s g (parent_of spans (par o)) (newroot o)) in *.
+      assert (Hk : gen (length spans) = (tid (sc sp), sid (sc sp))).
+      { rewrite Hg by lia. unfold ids_of. rewrite Hp, <- app_assoc. rewrite nth_error_app2 by lia.
+        now rewrite Nat.sub_diag. }
+      rewrite Hk. unfold sp at 1 2. rewrite new_span_self. fold sp.
+      apply (IH _ _ _ _ gen H). intros k Hk2. apply Hg. rewrite app_length in Hk2. cbn in Hk2. lia.
+  Qed.
+
+  (** every span started on the stock generator has a non-zero 8-byte span id, and a root a non-zero 16-byte trace id *)
+  Lemma run_stock_valid fuel ops : forall spans st res st',
+    run_stock w fuel s ops spans st = Some (res, st') ->
+    forall k sp, (length spans <= k)%nat -> nth_error res k = Some sp ->
+      valid_sid (sid (sc sp)) = true /\ (asked_ids sp = true -> valid_tid (tid (sc sp)) = true).
+  Proof.
+    induction ops as [|o r IH]; intros spans st res st' H k sp Hk Hn; cbn [run_stock] in H.
+    - inversion H; subst. assert (k < length res)%nat by (apply nth_error_Some; congruence). lia.
+    - set (psc := if newroot o then zero_sc else parent_of spans (par o)) in *.
+      destruct (tid_valid (tid psc)) eqn:Ev.
+      + destruct (stock_span_id w fuel st) as [[sd st1]|] eqn:Es; [|discriminate].
+        destruct (Nat.eq_dec k (length spans)) as [->|Hne].
+        * pose proof (run_stock_prefix _ _ _ _ _ _ H) as [extra Hp].
+          rewrite Hp, <- app_assoc, nth_error_app2, Nat.sub_diag in Hn by lia. cbn in Hn. inversion Hn; subst sp.
+          apply stock_span_id_valid in Es as [Hz Hl]. unfold new_span. fold psc. cbn [sc sid asked_ids snd].
+          rewrite Ev. cbn [negb]. split; [|discriminate]. unfold valid_sid. rewrite Hl. cbn. 
+          change (zero sd) with (all_zero sd). now rewrite Hz.
+        * apply (IH _ _ _ _ H k sp); [rewrite app_length; cbn; lia|exact Hn].
+      + destruct (stock_ids w fuel st) as [[[t sd] st1]|] eqn:Es; [|discriminate].
+        destruct (Nat.eq_dec k (length spans)) as [->|Hne].
+        * pose proof (run_stock_prefix _ _ _ _ _ _ H) as [extra Hp].
+          rewrite Hp, <- app_assoc, nth_error_app2, Nat.sub_diag in Hn by lia. cbn in Hn. inversion Hn; subst sp.
+          apply stock_ids_valid in Es as [Hz [Hl [Hz2 Hl2]]]. unfold new_span. fold psc. cbn [sc sid tid asked_ids fst snd].
+          rewrite Ev. cbn [negb]. unfold valid_sid, valid_tid. rewrite Hl, Hl2. cbn.
+          change (zero sd) with (all_zero sd). change (zero t) with (all_zero t). now rewrite Hz, Hz2.
+        * apply (IH _ _ _ _ H k sp); [rewrite app_length; cbn; lia|exact Hn].
+  Qed.
+End StockGen.
